@@ -213,6 +213,41 @@ def run02(ck):
                     res = 3
                 cases.append({"t": "flt", "pat": pat, "raw": raw, "res": res})
                 info.append(f"AddressFilter({text!r}).match({ga})")
+        # internal addresses: globs over names
+        from xknx.telegram.address import InternalGroupAddress  # noqa: PLC0415
+
+        alpha = "ab-i_1"
+        for _ in range(600 if ck.tier == "quick" else 20000):
+            pat = "i-" + "".join(rnd.choice(alpha + "**??") for _ in range(rnd.randrange(1, 7)))
+            if not pat[2:].strip():
+                continue
+            try:
+                flt = AddressFilter(pat)
+            except Exception as ex:  # noqa: BLE001
+                cases.append({"t": "glob", "p": [ord(c) for c in pat], "s": [], "res": -1})
+                info.append(f"AddressFilter({pat!r}) raised {type(ex).__name__}")
+                continue
+            cb = TelegramQueue.Callback(lambda t: None, address_filters=[flt])
+            names = ["".join(rnd.choice(alpha) for _ in range(rnd.randrange(1, 8))) for _ in range(6)]
+            # names built from the pattern: each '*' replaced by a short run, each '?' by one character; with a prefix / suffix added
+            for _k in range(6):
+                nm = "".join(("".join(rnd.choice(alpha) for _ in range(rnd.randrange(0, 3))) if c == "*" else rnd.choice(alpha) if c == "?" else c) for c in pat[2:])
+                names += [nm, rnd.choice(alpha) + nm, nm + rnd.choice(alpha), "i-" + nm, nm[:-1], nm.upper()]
+            for nm in names:
+                if not nm.strip() or nm != nm.strip():
+                    continue
+                ia = InternalGroupAddress("i-" + nm)
+                try:
+                    r1 = flt.match(ia)
+                    r2 = flt.match(str(ia))
+                    r3 = cb.is_within_filter(Telegram(destination_address=ia, payload=GroupValueRead(), direction=TelegramDirection.INCOMING))
+                    res_ = 1 if r1 else 0
+                    if not (bool(r1) == bool(r2) == bool(r3)):
+                        res_ = 2
+                except Exception:  # noqa: BLE001
+                    res_ = 3
+                cases.append({"t": "glob", "p": [ord(c) for c in InternalGroupAddress(pat).raw], "s": [ord(c) for c in ia.raw], "res": res_})
+                info.append(f"AddressFilter({pat!r}).match({ia.raw!r})")
         loop.close()
         asyncio.set_event_loop(None)
     finally:
@@ -222,14 +257,14 @@ def run02(ck):
     for idx in sorted(res.bad):
         c = cases[idx]
         if seen < 40:
-            ck.violation({"pat": c["pat"], "raw": c["raw"], "res": c["res"]}, f"{info[idx]} -> {c['res']} (0 no match, 1 match, 2 object / text / queue filter disagree, 3 raised)", {"call": info[idx], "case": c})
+            ck.violation({"pat": c.get("pat", c.get("p")), "raw": c.get("raw", c.get("s")), "res": c["res"]}, f"{info[idx]} -> {c['res']} (0 no match, 1 match, 2 object / text / queue filter disagree, 3 raised)", {"call": info[idx], "case": c})
         seen += 1
-    muts = [dict(c, res=1 - c["res"]) for c in cases[:200:5] if c["res"] in (0, 1)]
+    muts = [dict(c, res=1 - c["res"]) for c in cases[:200:5] if c["res"] in (0, 1)] + [dict(c, res=1 - c["res"]) for c in cases if c["t"] == "glob" and c["res"] in (0, 1)][:40]
     r2 = tlc.batch(ck, "codec/Address_Judge", muts)
     if not muts or len(r2.bad) != len(muts):
         raise MachineryError(f"binding self-test: {len(muts) - len(r2.bad)} of {len(muts)} corrupted cases accepted")
     ck.add(evaluations=len(cases), patterns=len(pats), matches=sum(1 for c in cases if c["res"] == 1),
-           distinct_nontrivial=len({str(c["pat"]) for c in cases}), selftest_corrupted_rejected=len(muts), rule="distinct = pattern AST")
+           distinct_nontrivial=len({str(c.get("pat", c.get("p"))) for c in cases}), internal_glob_cases=sum(1 for c in cases if c["t"] == "glob"), selftest_corrupted_rejected=len(muts), rule="distinct = pattern AST")
     ck.sample({"call": info[0], "case": cases[0]})
 
 
